@@ -98,25 +98,25 @@ def _placement(fn, scaled):
     pa = [a.arg for a in fn.args.args]
     rets = [s for s in fn.body if isinstance(s, ast.Return)]
     if len(rets) != 1 or not isinstance(rets[0].value, ast.Tuple) or len(rets[0].value.elts) != 3 or not all(isinstance(e, ast.Name) for e in rets[0].value.elts):
-        return False, "does not return (coarse dofs, barycentric dofs, values) from locals", {}
+        return None, "does not return (coarse dofs, barycentric dofs, values) from locals", {}
     CD, BD, VAL = (e.id for e in rets[0].value.elts)
     S = roles.stores(fn.body, defs, lv=False)
     st = {}
     for nm in (CD, BD, VAL):
         xs = [s for s in S if s.op == "=" and isinstance(s.tnode, ast.Subscript) and unparse(s.tnode.value) == nm]
         if len(xs) != 1 or len(xs[0].loops) != 2 or xs[0].guards:
-            return False, "`%s` is not filled by one unguarded store inside (support element, coarse local dof)" % nm, {}
+            return None, "`%s` is not filled by one unguarded store inside (support element, coarse local dof)" % nm, {}
         st[nm] = xs[0]
     lE, lK = st[CD].loops
     if st[BD].loops != (lE, lK) or st[VAL].loops != (lE, lK):
-        return False, "the three stores are not in the same loop nest", {}
+        return None, "the three stores are not in the same loop nest", {}
     if not (isinstance(lE.target, ast.Tuple) and len(lE.target.elts) == 2 and isinstance(lK.target, ast.Name) and roles.canon(lE.iter, defs) == "enumerate(%s)" % pa[1]
             and roles.canon(lK.iter, defs) == "range(3)"):
-        return False, "loops are not `for position, element in enumerate(support_elements)` / `for k in range(3)`", {}
+        return None, "loops are not `for position, element in enumerate(support_elements)` / `for k in range(3)`", {}
     I, K = lE.target.elts[0].id, lK.target.id
     cnt = [s for s in S if s.op == "Add=" and isinstance(s.tnode, ast.Name) and s.loops == (lE, lK) and not s.guards]
     if len(cnt) != 1 or not (isinstance(cnt[0].vnode, ast.Constant) and cnt[0].vnode.value == 18):
-        return False, "no single running counter advanced by 18 per (element, coarse dof)", {}
+        return None, "no single running counter advanced by 18 per (element, coarse dof)", {}
     N = cnt[0].target
     if not any(isinstance(x, ast.Assign) and unparse(x.targets[0]) == N and isinstance(x.value, ast.Constant) and x.value.value == 0 and x.lineno < lE.lineno for x in fn.body):
         return False, "the counter does not start at 0", {}
@@ -131,7 +131,7 @@ def _placement(fn, scaled):
         d = defs.lookup(v.id, v.lineno)
         v = d[1] if d and d[0] == "expr" else v
     if not (isinstance(v, ast.Call) and unparse(v.func) in ("_np.arange", "np.arange") and len(v.args) == 2):
-        return False, "barycentric dofs are not a contiguous arange(lo, hi)", {}
+        return None, "barycentric dofs are not a contiguous arange(lo, hi)", {}
     lo, hi = _affine(v.args[0], defs, {I, K}), _affine(v.args[1], defs, {I, K})
     if lo != {I: F(18)} or hi != {I: F(18), 1: F(18)}:
         return False, "barycentric dofs run over [%s, %s), not over [18*position, 18*position + 18) = the 3 dofs of each of the 6 sub-triangles of the element" % (lo, hi), {}
@@ -140,7 +140,7 @@ def _placement(fn, scaled):
         d = defs.lookup(val.id, val.lineno)
         val = d[1] if d and d[0] == "expr" else val
     if not (isinstance(val, ast.Call) and isinstance(val.func, ast.Attribute) and val.func.attr in ("ravel", "flatten") and not val.args):
-        return False, "values are not the row-major flattening of a 6 x 3 table", {}
+        return None, "values are not the row-major flattening of a 6 x 3 table", {}
     x = val.func.value
     if isinstance(x, ast.Name):
         d = defs.lookup(x.id, x.lineno)
@@ -196,12 +196,14 @@ def p1_table(ctx, B, pts):
     # placement: 18 values per coarse dof, row-major, starting at bary dof 3*(6*index)
     g = m.fn("generate_p1_map")
     okp, whyp, _ = _placement(g, False)
+    if okp is None:
+        raise AnalysisError("%s: construction not recognised: %s" % (g.name, whyp))
     r2 = ctx.rule("P1-BARY-PLACE", "generate_p1_map writes row j of coeffs[k] to the dofs of barycentric element 6*index + j, coarse dof 3*index + k", 1)
     r2.check(okp, "generate_p1_map", SS, "generate_p1_map", g.lineno, "generate_p1_map placement", whyp)
     bad = ast.parse("def g(grid_data, support_elements, coeffs):\n    a = _np.empty(9)\n    b = _np.empty(9)\n    v = _np.empty(9)\n    count = 0\n    for index, e in enumerate(support_elements):\n"
                     "        for k in range(3):\n            a[count:count + 18] = 3 * index + k\n            b[count:count + 18] = _np.arange(18 * e, 18 * e + 18)\n"
                     "            v[count:count + 18] = coeffs[k].ravel()\n            count += 18\n    return a, b, v").body[0]
-    r2.must_fire(not _placement(bad, False)[0], "barycentric dofs numbered by element number instead of support position")
+    r2.must_fire(_placement(bad, False)[0] is False, "barycentric dofs numbered by element number instead of support position")
 
 
 def dual0(ctx, B):
@@ -408,6 +410,8 @@ def rwg_tables(ctx, B, pts):
         whypts = "the points the sub-edge lengths are measured between are `%s`, expected the local points mapped to the listed element: %s.local2global(%s, %s)" % (got_lv, gp[0], item_, gp[2])
     r2.check(okpts, "mapped points", MS, "generate_rwg0_map", g.lineno, "points of the edge-length table", whypts)
     okp, whyp, names = _placement(g, True)
+    if okp is None:
+        raise AnalysisError("%s: construction not recognised: %s" % (g.name, whyp))
     r4 = ctx.rule("RWG-BARY-PLACE", "generate_rwg0_map scales coeffs[k] by outer_edges[k]/dof_mult and writes row j to barycentric element 6*index + j", 1)
     r4.check(okp, "generate_rwg0_map", MS, "generate_rwg0_map", g.lineno, "generate_rwg0_map placement", whyp)
     dm = _find_assign(g, names.get("dof_mult", "dof_mult"))
